@@ -19,12 +19,12 @@ def parse_requests(raw):
     out = []
     try:
         for tag, _, _, body, _ in ksi.parse_tlvs(raw):
-            if tag != 0x0220:
+            if tag not in (0x0220, 0x0320):
                 continue
             for t, _, _, p, _ in ksi.parse_tlvs(body):
                 if t == 0x02:
                     rid = int.from_bytes(ksi.find(p, 1)[0], "big")
-                    h = ksi.find(p, 2)
+                    h = ksi.find(p, 2)          # signing: the request hash; extending: the aggregation time
                     out.append((rid, h[0] if h else None))
     except ValueError:
         pass
@@ -32,14 +32,14 @@ def parse_requests(raw):
 
 
 class HaScn:
-    def __init__(self, sess, rng, nep, opts, sid):
-        self.s = sess; self.rng = rng; self.nep = nep; self.o = opts; self.sid = sid
+    def __init__(self, sess, rng, nep, opts, sid, svc="sign"):
+        self.s = sess; self.rng = rng; self.nep = nep; self.o = opts; self.sid = sid; self.svc = svc; self.key = {}
         self.ev = []; self.docs = {}; self.rid = {}; self.next_q = 1; self.peer_open = {k: True for k in range(nep)}
         self.wire = {k: b"" for k in range(nep)}
 
     def start(self):
         o = self.o
-        out = self.s.cmd("HANEW %d %d %d %d %d %d" % (self.nep, o["N"], o["SndTo"], o["RcvTo"], o["MaxReq"], o["ConTo"]))
+        out = self.s.cmd("HANEW %d %d %d %d %d %d%s" % (self.nep, o["N"], o["SndTo"], o["RcvTo"], o["MaxReq"], o["ConTo"], " x" if self.svc == "extend" else ""))
         if "rc=0" not in out[-1]:
             raise vlib.CheckError("HANEW failed: %s" % out)
         self.s.ep_open = {}; self.s.ep_conn = {}
@@ -53,8 +53,8 @@ class HaScn:
                 d = ln.split("data=")[1]
                 self.wire[ep] += bytes.fromhex(d) if d != "-" else b""
                 for rid, h in parse_requests(self.wire[ep]):
-                    for q, doc in self.docs.items():
-                        if h == doc:
+                    for q, k in self.key.items():
+                        if h == k:
                             self.rid[(ep, q)] = rid
             elif ln.startswith("E socket"):
                 ep = int(re.search(r"ep=(\d+)", ln).group(1)); self.peer_open[ep] = True; self.wire[ep] = b""
@@ -64,7 +64,12 @@ class HaScn:
             return
         q = self.next_q; self.next_q += 1
         doc = ksi.imprint(1, b"ha-%d-%d" % (self.sid, q)); self.docs[q] = doc
-        out = self.s.cmd("ADD %d %s 0" % (q, doc.hex()))
+        if self.svc == "extend":          # the request is recognised on the wire by its aggregation time; `doc` is the calendar input hash of the honest reply
+            aggr = 1500000000 + 10 * q + self.sid % 7; self.key[q] = ksi.uint(aggr); self.aggr = getattr(self, "aggr", {}); self.aggr[q] = aggr
+            out = self.s.cmd("ADDX %d %d -" % (q, aggr))
+        else:
+            self.key[q] = doc
+            out = self.s.cmd("ADD %d %s 0" % (q, doc.hex()))
         acc = []
         for ln in out:
             if ln.startswith("E subadd"):
@@ -112,17 +117,26 @@ class HaScn:
         if kind == "close":
             self.s.cmd(rng.choice(["PEERCLOSE", "PEERRESET"])); self.peer_open[ep] = False
             return
+        TAG = 0x0321 if self.svc == "extend" else 0x0221
         if kind == "errpdu":
-            raw = ksi.pdu_v2(0x0221, b"anon", b"anon", [ksi.error_payload_v2(0x102, b"auth")])
+            raw = ksi.pdu_v2(TAG, b"anon", b"anon", [ksi.error_payload_v2(0x102, b"auth")])
         else:
             if not mine:
                 return
             q = rng.choice(mine); rid = self.rid[(ep, q)]
-            if kind == "valid":
+            if self.svc == "extend":
+                if kind == "valid":
+                    aggr = self.aggr[q]; pub = aggr + 4000
+                    links = [(l, ksi.fake_imprint(1, rng.randbytes(8))) for l in reversed(ksi.cal_shape(pub, aggr))]
+                    body = ksi.tlv(0x01, ksi.uint(rid)) + ksi.tlv(0x04, b"") + ksi.tlv(0x12, ksi.uint(pub + 9)) + ksi.cal_chain_tlv(pub, aggr, self.docs[q], links)
+                else:
+                    body = ksi.tlv(0x01, ksi.uint(rid)) + ksi.tlv(0x04, ksi.uint(0x101)) + ksi.tlv(0x05, b"bad request\0")
+                payload = ksi.tlv(0x02, body)
+            elif kind == "valid":
                 payload = ksi.aggr_response_payload_v2(rid, sig=ksi.build_sig(rng, self.docs[q], anchor="auth", links_per_chain=(1, 2)))
             else:
                 payload = ksi.aggr_response_payload_v2(rid, status=0x101, errmsg=b"bad request")
-            raw = ksi.pdu_v2(0x0221, b"anon", b"anon", [payload])
+            raw = ksi.pdu_v2(TAG, b"anon", b"anon", [payload])
         self.s.cmd("S2C " + raw.hex())
 
     def step(self):
@@ -178,7 +192,7 @@ def request_traces(chk, exe, rng, nep, o, nscen, steps, label):
     done = 0
     try:
         for k in range(nscen):
-            sc = HaScn(sess, rng, nep, o, k)
+            sc = HaScn(sess, rng, nep, o, k, svc=("extend" if k % 3 == 2 else "sign"))
             starts.append(len(events) + 1)
             mark = len(sess.log)
             try:
